@@ -445,6 +445,9 @@ PSHAPES = [
     (["union", [["farr", "u16", 70000], ["varr", "i13", "c0"]]], ["c0"]),
     (["struct", [["farr", ["struct", ["bool", ["varr", "u8", 2]]], "c0"]]], ["c0"]),
     (["struct", ["void3", ["varr", ["varr", "u8", 3], "c0"], "f32"]], ["c0"]),
+    # variability hidden two levels down: variable array of records whose only variable part is inside a fixed array
+    (["struct", [["varr", ["struct", ["u8", ["farr", ["struct", [["varr", "u8", 2]]], 2]]], "c0"]]], ["c0"]),
+    (["struct", ["u3", ["varr", ["struct", [["farr", ["union", ["u8", "u16"]], "c0"], "bool"]], 2]]], ["c0"]),
 ]
 
 ELEMS = ["u8", "bool", "u3", "i13", "u16", "f64", ["struct", ["u8", "u16"]], ["struct", ["u3"]],
